@@ -39,12 +39,14 @@ public:
 
     Ptr& operator=(const Ptr& other)
     {
-      if(other.refObj)
-        Atomic::increment(other.refObj->ref);
+      Object* otherRefObj = other.refObj; // other may be a member of the object that is released below
+      C* otherObj = other.obj;
+      if(otherRefObj)
+        Atomic::increment(otherRefObj->ref);
       if(refObj && Atomic::decrement(refObj->ref) == 0)
         delete refObj;
-      refObj = other.refObj;
-      obj = other.obj;
+      refObj = otherRefObj;
+      obj = otherObj;
       return *this;
     }
 
@@ -62,12 +64,14 @@ public:
 
     template <class D> Ptr& operator=(const Ptr<D>& other)
     {
-      if(other.refObj)
-        Atomic::increment(other.refObj->ref);
+      Object* otherRefObj = other.refObj; // other may be a member of the object that is released below
+      C* otherObj = other.obj;
+      if(otherRefObj)
+        Atomic::increment(otherRefObj->ref);
       if(refObj && Atomic::decrement(refObj->ref) == 0)
         delete refObj;
-      refObj = other.refObj;
-      obj = other.obj;
+      refObj = otherRefObj;
+      obj = otherObj;
       return *this;
     }
 
